@@ -1,5 +1,5 @@
 """Shared scenario machinery for asynchronous pipelines (C02 C03 C04 C05 C08 C13)."""
-from ..sched import Scenario, Violation, _freeze
+from ..sched import Injected, Scenario, Violation, _freeze
 
 LOSSLESS_BUFFERING = ("buffer", "delay", "rate_limit", "map_async", "timed_window", "partition", "latest",
                       "timed_window_unique", "collect")
@@ -79,6 +79,35 @@ class PipeScenario(Scenario):
                 scen.log.append(("f-in", "f", scen.loop.time(), _freeze(x)))
                 await g.fut
                 scen.log.append(("f-out", "f", scen.loop.time(), _freeze(x)))
+                return x
+            return up.map_async(f, parallelism=a[0])
+        if name == "map_async_kw":
+            # extra positional and keyword arguments reach the mapped coroutine
+            async def f(x, k, scale=0):
+                g = scen.gate("f:%r" % (x,))
+                scen.log.append(("f-in", "f", scen.loop.time(), _freeze(x)))
+                await g.fut
+                scen.log.append(("f-out", "f", scen.loop.time(), _freeze(x)))
+                return x * scale // k
+            return up.map_async(f, 1, parallelism=a[0], scale=1)
+        if name == "map_async_none":
+            # a mapped coroutine whose result is None for even inputs: None is an element like any other
+            async def f(x):
+                g = scen.gate("f:%r" % (x,))
+                scen.log.append(("f-in", "f", scen.loop.time(), _freeze(x)))
+                await g.fut
+                scen.log.append(("f-out", "f", scen.loop.time(), _freeze(x)))
+                return None if x % 2 == 0 else x
+            return up.map_async(f, parallelism=a[0])
+        if name == "map_async_failing":
+            # the mapped coroutine raises for even inputs (default stop_on_exception=False: logged and skipped)
+            async def f(x):
+                g = scen.gate("f:%r" % (x,))
+                scen.log.append(("f-in", "f", scen.loop.time(), _freeze(x)))
+                await g.fut
+                scen.log.append(("f-out", "f", scen.loop.time(), _freeze(x)))
+                if x % 2 == 0:
+                    raise Injected("f(%r)" % (x,))
                 return x
             return up.map_async(f, parallelism=a[0])
         if name == "map_async_eager":
